@@ -371,7 +371,8 @@ func VerifC12Forever(maxTries int) {
 	k.ctxAt = int64(verifU64("ctx.at"))
 	verifAssume(k.ctxAt >= 0)
 	verifAssume(k.ctxAt < k.budget)
-	ctx.cancelAt(k.ctxAt)
+	k.ctxErr = errVerifCanceled
+	ctx.endAt(k.ctxAt, k.ctxErr)
 	k.start = verifNow()
 	k.resp, k.err = k.c.SendAndRead(ctx, k.dest, k.req, nil)
 	k.end = verifNow()
